@@ -1036,6 +1036,16 @@ static Member *struct_designator(Token **rest, Token *tok, Type *ty) {
   error_tok(tok, "struct has no such member");
 }
 
+// Make `mem` the member of a union that the initializer initializes.
+// When another member was initialized before, what `mem` held earlier
+// is gone with the rest of the union (C11 6.7.9p19), so it starts
+// afresh instead of merging with its former contents.
+static void select_union_member(Initializer *init, Member *mem) {
+  if (init->mem && init->mem != mem)
+    init->children[mem->idx] = new_initializer(mem->ty, false);
+  init->mem = mem;
+}
+
 // designation = ("[" const-expr "]" | "." ident)* "="? initializer
 static void designation(Token **rest, Token *tok, Initializer *init) {
   if (equal(tok, "[")) {
@@ -1062,7 +1072,7 @@ static void designation(Token **rest, Token *tok, Initializer *init) {
 
   if (equal(tok, ".") && init->ty->kind == TY_UNION) {
     Member *mem = struct_designator(&tok, tok, init->ty);
-    init->mem = mem;
+    select_union_member(init, mem);
     designation(rest, tok, init->children[mem->idx]);
     return;
   }
@@ -1223,7 +1233,7 @@ static void union_initializer(Token **rest, Token *tok, Initializer *init) {
   // You can initialize other member using a designated initializer.
   if (equal(tok, "{")) {
     tok = tok->next;
-    init->mem = init->ty->members;
+    select_union_member(init, init->ty->members);
 
     for (int i = 0; !consume_end(rest, tok); i++) {
       if (i > 0)
@@ -1231,7 +1241,7 @@ static void union_initializer(Token **rest, Token *tok, Initializer *init) {
 
       if (equal(tok, ".")) {
         Member *mem = struct_designator(&tok, tok, init->ty);
-        init->mem = mem;
+        select_union_member(init, mem);
         designation(&tok, tok, init->children[mem->idx]);
       } else if (i == 0) {
         initializer2(&tok, tok, init->children[0]);
@@ -1242,7 +1252,7 @@ static void union_initializer(Token **rest, Token *tok, Initializer *init) {
     return;
   }
 
-  init->mem = init->ty->members;
+  select_union_member(init, init->ty->members);
 
   {
     initializer2(rest, tok, init->children[0]);
